@@ -44,7 +44,7 @@ EXTERNAL_RAISES = {
     "struct.unpack_from": {"struct.error"}, "struct.calcsize": set(),
     "pefile.PE": {"pefile.PEFormatError"},
     "json.dumps": set(), "json.JSONEncoder.default": {"TypeError"},
-    "functools.partial": set(), "contextlib.suppress": set(), "warnings.warn": set(), "collections.Counter": set(),
+    "functools.partial": set(), "functools.lru_cache": set(), "functools.cache": set(), "contextlib.suppress": set(), "warnings.warn": set(), "collections.Counter": set(),
     "string.printable.encode": set(),
 }
 # methods of bytes / str / list / dict / match / library objects: total unless listed
